@@ -1546,6 +1546,16 @@ class Parameter(_ParameterBase):
                 raise AttributeError("Parameter name cannot be modified after "
                                      "it has been bound to a Parameterized.")
 
+        if attribute == 'owner' and (value is None or isinstance(value, type)):
+            try:
+                following = object.__getattribute__(self, 'default') is _follows_class_default
+            except AttributeError:
+                following = False
+            if following:
+                # the copy leaves the instance it followed the class for (it
+                # is bound to a class, or detached): it keeps the default it had
+                object.__setattr__(self, 'default', self.default)
+
         is_slot = attribute in self.__class__._all_slots_
         has_watcher = attribute != "default" and attribute in getattr(self, 'watchers', [])
         if not (is_slot or has_watcher):
